@@ -111,7 +111,8 @@ Definition max_time_delay (rate millis : N) : N := w32 (rate * millis / 1000).
 
 (* ghost events: every change of active.head *)
 Inductive ev :=
-| EvAnchor (h : N)            (* active = filled *)
+| EvAnchor (a h : N) (lag : bool) (* active = filled: active.head was a, is now h = filled.head;
+                                 lag: a packet of an already built sample is still buffered *)
 | EvMove (kind : N) (h t : N) (* active.head = consume.tail; kind 0 sample built,
                                  1 run dropped (not a partition head), 2 Unmarshal error *)
 | EvSkip (h : N).             (* active.head++ in purgeBuffers *)
@@ -141,6 +142,11 @@ Definition set_headCalls s v := mkSt (buf s) (prep s) (filled s) (active s) (pre
 Definition set_fault s v := mkSt (buf s) (prep s) (filled s) (active s) (prepared s) (lastTs s) (dropped s) (padding s) (headCalls s) (released s) (built s) (evlog s) v.
 Definition log_ev s e := mkSt (buf s) (prep s) (filled s) (active s) (prepared s) (lastTs s) (dropped s) (padding s) (headCalls s) (released s) (built s) (e :: evlog s) (fault s).
 Definition raise (s : st) (f : N) : st := if fault s =? 0 then set_fault s f else s.
+
+(* ghost: some buffered packet is part of a sample built earlier (consumed, not yet released) *)
+Definition consumed_ids (s : st) : list N := flat_map (fun x => map p_id (s_pkts x)) (built s).
+Definition lagging (s : st) : bool :=
+  existsb (fun e => existsb (N.eqb (p_id (snd e))) (consumed_ids s)) (buf s).
 
 (* ---------- searches standing for the "first / last non-nil slot" loops ---------- *)
 (* for i := head; i != tail; i++ { if buffer[i] != nil { found; break } } *)
@@ -255,7 +261,7 @@ Section Builder.
 
   Definition buildSample (purging : bool) (s0 : st) : st * option sample :=
     let s1 := if l_empty (active s0)
-              then log_ev (set_active s0 (filled s0)) (EvAnchor (l_head (filled s0))) else s0 in
+              then log_ev (set_active s0 (filled s0)) (EvAnchor (l_head (active s0)) (l_head (filled s0)) (lagging s0)) else s0 in
     if l_empty (active s1) then (s1, None)
     else
       let s2 := if cmp_eqb (compare (filled s1) (l_tail (active s1))) CInside
@@ -319,7 +325,7 @@ Section Builder.
 
   Definition purge_body (s0 : st) : st :=
     let s1 := if l_empty (active s0)
-              then log_ev (set_active s0 (filled s0)) (EvAnchor (l_head (filled s0))) else s0 in
+              then log_ev (set_active s0 (filled s0)) (EvAnchor (l_head (active s0)) (l_head (filled s0)) (lagging s0)) else s0 in
     if l_hasData (active s1) && (l_head (active s1) =? l_head (filled s1)) then
       let r := buildSample true s1 in
       match snd r with
